@@ -595,6 +595,10 @@ theorem body_good {rec : Rec} (hrec : GoodRec rec) (cx : Ctx) (k : Nat) (kind : 
   | enable c => simp only [body] at h; exact hrec _ _ _ _ _ _ h
   | disable c => simp only [body] at h; exact hrec _ _ _ _ _ _ h
   | action fam c => simp only [body] at h; exact hrec _ _ _ _ _ _ h
+  | state d c =>
+    simp only [body, Option.map_eq_some_iff] at h
+    obtain ⟨r0, h0, rfl⟩ := h
+    exact (hrec _ _ _ _ _ _ h0).congr rfl rfl
 
 end Pegtl
 
@@ -618,8 +622,8 @@ theorem actionOutcome_vetoes (cx : Ctx) (i : Nat) (a : AMode) (act : ActionSpec)
       split at h <;> split at h <;> simp at h
   · simp [hact] at h
 
-@[simp] theorem afterBody_st (cx : Ctx) (i : Nat) (a : AMode) (act : ActionSpec) (saved : Cursor) (r : Ret) :
-    (afterBody cx i a act saved r).st = r.st := by
+@[simp] theorem afterBody_st (cx : Ctx) (i : Nat) (a : AMode) (act : ActionSpec) (sd : Nat) (saved : Cursor) (r : Ret) :
+    (afterBody cx i a act sd saved r).st = r.st := by
   unfold afterBody
   split
   · rfl
@@ -629,8 +633,8 @@ theorem actionOutcome_vetoes (cx : Ctx) (i : Nat) (a : AMode) (act : ActionSpec)
 
 /-- `afterBody` reports a local failure only if the body failed, or the body matched and a
     `bool` action vetoed — and in the second case `match()` holds a `required` guard. -/
-theorem afterBody_fail (cx : Ctx) (i : Nat) (a : AMode) (act : ActionSpec) (saved : Cursor) (r : Ret)
-    (h : (afterBody cx i a act saved r).res = .fail) : r.res = .fail ∨ useGuard a act = true := by
+theorem afterBody_fail (cx : Ctx) (i : Nat) (a : AMode) (act : ActionSpec) (sd : Nat) (saved : Cursor) (r : Ret)
+    (h : (afterBody cx i a act sd saved r).res = .fail) : r.res = .fail ∨ useGuard a act = true := by
   unfold afterBody at h
   split at h
   · rename_i e he; exact absurd h (by simp [he])
@@ -673,8 +677,8 @@ theorem nodeCore_good {rec : Rec} (hrec : GoodRec rec) (cx : Ctx) (k i : Nat) (n
     obtain ⟨r0, h0, rfl⟩ := h
     have gb := body_good hrec cx k _ _ _ _ _ _ h0
     refine Good.congr (r := guardRestore (if useGuard a (cx.actOf env i nd) = true then .required else .optional) st.cur
-      (afterBody cx i a (cx.actOf env i nd) st.cur r0)) ?_ (by simp [guardRestore]; split <;> simp) (by simp)
-    have w : Weak st (afterBody cx i a (cx.actOf env i nd) st.cur r0) := gb.toWeak.congr (by simp)
+      (afterBody cx i a (cx.actOf env i nd) env.sd st.cur r0)) ?_ (by simp [guardRestore]; split <;> simp) (by simp)
+    have w : Weak st (afterBody cx i a (cx.actOf env i nd) env.sd st.cur r0) := gb.toWeak.congr (by simp)
     cases hug : useGuard a (cx.actOf env i nd) with
     | true => exact guard_good (Or.inl (by simp)) w
     | false =>
@@ -682,7 +686,7 @@ theorem nodeCore_good {rec : Rec} (hrec : GoodRec rec) (cx : Ctx) (k i : Nat) (n
       simp only [Bool.false_eq_true, if_false, guardRestore_optional]
       refine ⟨w, ?_⟩
       intro hf hm
-      rcases afterBody_fail _ _ _ _ _ _ hf with h1 | h1
+      rcases afterBody_fail _ _ _ _ _ _ _ hf with h1 | h1
       · simpa using gb.failCur h1 hm
       · simp [hug] at h1
 
@@ -732,6 +736,12 @@ theorem nodeCall_good {rec : Rec} (hrec : GoodRec rec) (cx : Ctx) (k i : Nat) (a
     · exact nodeCore_good hrec cx k i nd _ m env st r0 h0
     · exact limitDepthCall_good (fun st r h => nodeCore_good hrec cx k i nd a m env st r h) _ _ _ h0
     · exact limitBytesCall_good (fun st r h => nodeCore_good hrec cx k i nd a m env st r h) _ _ _ h0
+    · simp only [Option.map_eq_some_iff] at h0
+      obtain ⟨r1, h1, rfl⟩ := h0
+      exact (nodeCore_good hrec cx k i nd a m _ st r1 h1).congr rfl rfl
+    · simp only [Option.map_eq_some_iff] at h0
+      obtain ⟨r1, h1, rfl⟩ := h0
+      exact (hrec _ _ _ _ _ _ h1).congr rfl rfl
 
 theorem run_good (cx : Ctx) : ∀ n, GoodRec (run cx n) := by
   intro n
